@@ -16,12 +16,13 @@ from checks import _valgen as vg
 
 MANIFEST = dict(
     technique="Coq: induction on schema trees (iter_errors empty iff Draft-4 conforms), path lemmas for create_message, idempotence of lower-casing, reflection over the generated schema files; extracted-model correspondence with fault injection; independent Draft-4 oracle in Python",
-    text=("Coq theorems (Props/C07.v, 14, all closed) over Model/Schema.v (jsonschema Draft4Validator.iter_errors on the keyword census, with error paths and validator keywords, over the $ref-expanded tree) and Model/Validator.v: "
+    text=("Coq theorems (Props/C07.v, 18, all closed) over Model/Schema.v (jsonschema Draft4Validator.iter_errors on the keyword census, with error paths and validator keywords, over the $ref-expanded tree) and Model/Validator.v: "
           "C07_iter_errors_complete [U] (for every well-formed schema tree and every instance: no errors iff Spec/Draft4.conforms; induction on the schema, all 19 keywords) and C07_iter_errors_complete_refs (with $ref: the proxy view equals the specification's inlining); "
           "C07_shipped_schemas_wf [F]; C07_validate_verdict [U] (validate returns [] iff the lower-cased JSON form conforms); "
           "C07_messages_cover [U] (one message per error, in order, naming the last key of its path or the __type__ of the object it points to, any depth) and C07_errors_are_located [U] (violating keyword values / list elements / unknown / missing keywords are reported at the right place); "
           "C07_validate_never_raises_partial / C07_validate_list_never_raises_partial [U] (validate returns for every root dictionary of the loads/create shape - lower-case unique keys, string __type__ on the root and on dict members of lists, no position records - "
-          "via C07_error_paths_valid [U] (every error path leads to a node of the instance) and the correspondence between instance paths and the original dictionary; that loads/create produce that shape is checked by the hunter on every document, "
+          "via C07_error_paths_valid [U] (every error path leads to a node of the instance) and the correspondence between instance paths and the original dictionary; that loads produces that shape is now a theorem for every text and flag combination (C07_loaded_dictionaries_are_shaped, Proofs/C07U.v) up to __position__ entries, "
+          "so validate never raises on any loaded dictionary without a __position__ key (C07_validate_loaded_never_raises; the guard is refuted when dropped: an attribute spelled __type__ or a METADATA/CONFIG key spelled __position__), and on loaded dictionaries with well-formed position records against the shipped MAP schema (partial: that every loaded dictionary has such records is not proved; the bridge proof found the AttributeError repaired by commit b8dd688); create() output is checked by the hunter, "
           "dictionaries with __position__ are covered by C07_validate_never_raises_guarded [U] and O-val; since commit 4abf0be the former counterexample MAP SIZE 10.5 20 is an Example returning a message naming SIZE); "
           "C07_convert_lowercase_idempotent and C07_verdict_case_insensitive [U]; C07_hidden_keys_admitted [F]+[U]; C07_list_is_pointwise [U]. "
           "Tie to validator.py/jsonschema/jsonref/re: extracted model vs real validate (ordered messages: path, validator keyword, mappyfile message, line/column, exception class) on generated valid documents of every block type, "
@@ -216,7 +217,11 @@ def run(ctx):
               "MAP SYMBOL TYPE ELLIPSE POINTS 1 1 END FILLED TRUE END END", "MAP NAME 'ok' END",
               "MAP\n WEB\n  FOO 1\n END\n LEGEND\n  KEYSIZE 1 10\n  BAR 2\n END\n SCALEBAR\n  UNITS bad\n  LABEL\n   NOSUCH 1\n  END\n END\nEND",
               "MAP\n LAYER\n  TYPE POINT\n  CLASS\n   LEADER\n    GRIDSTEP 'x'\n    NOSUCH 1\n   END\n   STYLE\n    COLOR 1 2 300\n    OFFSET 'a' 2\n   END\n  END\n  FEATURE\n   POINTS 1 2 'x' 4 END\n  END\n END\nEND",
-              "MAP\n QUERYMAP\n  SIZE 1 'b'\n  NOSUCH 1\n END\n REFERENCE\n  EXTENT 1 2 3\n  NOSUCH 2\n END\nEND"):
+              "MAP\n QUERYMAP\n  SIZE 1 'b'\n  NOSUCH 1\n END\n REFERENCE\n  EXTENT 1 2 3\n  NOSUCH 2\n END\nEND",
+              # faults inside repeatable keywords / repeated POINTS: with positions the block records a list per keyword
+              "MAP LAYER PROCESSING 5 END END", "MAP LAYER TYPE POINT PROCESSING 'A=1' PROCESSING 5 PROCESSING 'B=2' END END",
+              "MAP OUTPUTFORMAT NAME 'o' FORMATOPTION 'A=1' FORMATOPTION 7 END END",
+              "MAP LAYER TYPE POINT FEATURE POINTS 1 2 END POINTS 3 'x' END END END END", "MAP LAYER TYPE POINT COMPFILTER 1 COMPFILTER 'blur(2)' END END"):
         for pos in (False, True):
             try:
                 docs.append(("probe", mappyfile.loads(t, include_position=pos), "map", []))
